@@ -54,8 +54,8 @@ META = {
 
 def tiers(ctx):
     if ctx.tier == "quick":
-        return [("full", 56, 28, 1), ("s1", 16, 24, 1)]
-    return [("full", 1100, 40, 1), ("s1", 200, 30, 1)]
+        return [("full", 36, 26, 1), ("s1", 6, 20, 1), ("s1c", 10, 24, 1)]
+    return [("full", 500, 40, 1), ("s1", 60, 30, 1), ("s1c", 140, 36, 1)]
 
 
 def summarize(h, k):
@@ -91,10 +91,9 @@ def run_family(ctx, pid, sections, classify):
         return
     model_bad = set(res["model"]) | M.dump_bad(hs)
     ref_bad = {x for x in res["ref"] if x[2] in sections}
-    masked_bad = {x for x in res["ref_masked"] if x[2] in sections}
     known, unknown = set(), set()
     for x in ref_bad:
-        key = classify(x, masked_bad)
+        key = classify(x, res)
         (known if key else unknown).add(x)
     ctx.tie(not model_bad)      # correspondence implementation = model (state, results, views)
     ctx.tie(not unknown)        # implementation satisfies the reference rules (outside known classes)
@@ -116,10 +115,14 @@ def run_family(ctx, pid, sections, classify):
                                              [M.SECTIONS.get(s, s) for (hh, kk, s) in model_bad if hh == h and kk == k],
                        "reference_disagrees_on": [M.SECTIONS.get(s, s) for s in diag[1] if s in sections],
                        "observed": summarize(hs[h], k)})
-    for x in sorted(known)[:1]:
+    seen_keys = set()
+    for x in sorted(known):
         h, k, sec = x
+        if classify(x, res) in seen_keys:
+            continue
+        seen_keys.add(classify(x, res))
         ctx.violation({"case": {"ops": hs[h]["ops"][:k + 1]}, "section": M.SECTIONS.get(sec, sec), "observed": summarize(hs[h], k)},
-                      key=classify(x, masked_bad))
+                      key=classify(x, res))
     return hs, res, known, unknown, model_bad
 
 
@@ -184,9 +187,9 @@ def coverage(ctx, hs, res, known, sections, rule_extra=""):
 
 
 def run(ctx):
-    def classify(x, masked_bad):
+    def classify(x, res):
         # known class: the section fails, but not once the tombstoned-and-locked addresses are ignored
-        return KEY if (x not in masked_bad and x[2] in (3, 4, 5, 6, 8, 10)) else None
+        return KEY if (x not in res["ref_masked"] and x[2] in (3, 4, 5, 6, 8, 10)) else None
     out = run_family(ctx, "C01", C01_SECTIONS, classify)
     if out is None:
         return
